@@ -195,8 +195,12 @@ pub fn judge(c: &Case) -> Verdict {
     AS_SETS.with(|s| s.set(c.term.has_path_effects()));
     let m = run_model(c);
     let want = m.outs.len();
-    // pull one more than the model has (to see the end), but never beyond K
-    let imp = match std::panic::catch_unwind(std::panic::AssertUnwindSafe(|| run_impl(c, (want + 1).min(K), None))) {
+    // pull one more than the model has (to see the end), but never beyond K - and not at all
+    // beyond the model's outputs when the definitional trace itself does not end within its
+    // budget: the implementation may then legitimately work for ever too (e.g. collecting an
+    // endless fold), which is no laziness violation
+    let pulls = if m.end == "end" || m.end == "error" { (want + 1).min(K) } else { want };
+    let imp = match std::panic::catch_unwind(std::panic::AssertUnwindSafe(|| run_impl(c, pulls, None))) {
         Ok(Ok(i)) => i,
         Ok(Err(e)) => return Verdict::Inconclusive(format!("does not compile: {e}")),
         Err(_) => return Verdict::Inconclusive("interpreter panicked (C05's subject)".into()),
@@ -357,7 +361,11 @@ impl G<'_> {
                 _ => T::Dot,
             };
         }
-        match self.rng.usize(36) {
+        match self.rng.usize(38) {
+            36 | 37 => {
+                let pd = 1 + self.rng.usize(3) as u32;
+                T::PathOf(bx(self.path_term(pd)))
+            }
             34 | 35 => {
                 // an effectful, multi-valued index or slice bound: definitionally
                 // `Z as $z | .[a:$z]`, so what lies behind the consumed bound must not run
@@ -492,6 +500,76 @@ impl G<'_> {
                 T::Pipe(bx(a), bx(T::Inc))
             }
             _ => self.stream(d - 1),
+        }
+    }
+    fn pass(&mut self) -> T {
+        self.next_probe += 1;
+        T::Pass(self.next_probe)
+    }
+    /// a marker that must not be reached, usable in path mode
+    fn path_hazard(&mut self) -> T {
+        let bx = Box::new;
+        match self.rng.usize(5) {
+            0 | 1 => T::Bomb,
+            2 => {
+                let p = self.pass();
+                T::Pipe(bx(p), bx(T::Err))
+            }
+            3 => {
+                let p = self.pass();
+                T::Repeat(bx(T::Pipe(bx(p), bx(T::Empty))))
+            }
+            _ => self.pass(),
+        }
+    }
+    /// a path expression (run under `path(..)` on `[[10,20,30],[40,50]]`) with effects
+    fn path_term(&mut self, d: u32) -> T {
+        let bx = Box::new;
+        if d == 0 {
+            return match self.rng.usize(6) {
+                0 | 1 => T::Idx(self.rng.range(0, 2)),
+                2 => T::Iter,
+                3 | 4 => self.pass(),
+                _ => T::Dot,
+            };
+        }
+        match self.rng.usize(13) {
+            0..=2 => {
+                let a = self.path_term(d - 1);
+                let b = if self.rng.chance(1, 3) { self.path_hazard() } else { self.path_term(d - 1) };
+                T::Comma(bx(a), bx(b))
+            }
+            3..=5 => {
+                let a = self.path_term(d - 1);
+                let b = self.path_term(d - 1);
+                T::Pipe(bx(a), bx(b))
+            }
+            6 => {
+                let c = self.cond();
+                let a = self.path_term(d - 1);
+                let b = if self.rng.chance(1, 2) { self.path_hazard() } else { self.path_term(d - 1) };
+                T::If(c, bx(a), bx(b))
+            }
+            7 | 8 => {
+                let a = self.path_term(d - 1);
+                let h = self.path_hazard();
+                T::First(bx(T::Comma(bx(a), bx(h))))
+            }
+            9 => {
+                let a = self.path_term(d - 1);
+                let h = self.path_hazard();
+                T::Limit(self.rng.range(0, 3), bx(T::Comma(bx(a), bx(h))))
+            }
+            10 => T::Skip(self.rng.range(0, 2), bx(self.path_term(d - 1))),
+            11 => {
+                let l = self.fresh("l");
+                let e = self.path_term(d - 1);
+                let c = self.cond();
+                let body = T::Pipe(bx(e), bx(T::If(c, bx(T::Comma(bx(T::Dot), bx(T::Break(l.clone())))), bx(T::Dot))));
+                let tail = self.path_hazard();
+                T::Label(l, bx(T::Comma(bx(body), bx(tail))))
+            }
+            _ => T::TryQ(bx(self.path_term(d - 1))),
         }
     }
     /// the update of a fold: one or several outputs, possibly with effects behind the first
@@ -686,7 +764,7 @@ fn well_scoped(t: &T, vars: &mut Vec<String>, labels: &mut Vec<String>) -> bool 
         }
         T::TryQ(a) | T::First(a) | T::Limit(_, a) | T::Skip(_, a) | T::Nth(_, a) | T::IsEmpty(a) | T::Any(a, _)
         | T::All(a, _) | T::Arr(a) | T::Rec(a) | T::Repeat(a) | T::Recurse(a) | T::While(_, a) | T::Until(_, a)
-        | T::SliceTo(_, a) | T::IndexAt(a) => well_scoped(a, vars, labels),
+        | T::SliceTo(_, a) | T::IndexAt(a) | T::PathOf(a) => well_scoped(a, vars, labels),
         _ => true,
     }
 }
@@ -902,6 +980,8 @@ fn term_tags(t: &T) -> BTreeSet<&'static str> {
             T::Until(..) => "until",
             T::Range(..) => "range",
             T::SliceTo(..) | T::IndexAt(_) => "path_position",
+            T::PathOf(_) => "path_mode",
+            T::Idx(_) | T::Iter | T::Pass(_) => "leaf",
         });
         match t {
             T::Comma(a, b) | T::Pipe(a, b) | T::Alt(a, b) | T::Try(a, b) | T::As(a, _, b) | T::If(_, a, b) => {
@@ -910,7 +990,7 @@ fn term_tags(t: &T) -> BTreeSet<&'static str> {
             }
             T::TryQ(a) | T::Label(_, a) | T::First(a) | T::Limit(_, a) | T::Skip(_, a) | T::Nth(_, a) | T::IsEmpty(a)
             | T::Any(a, _) | T::All(a, _) | T::Arr(a) | T::Rec(a) | T::Repeat(a) | T::Recurse(a) | T::While(_, a)
-            | T::Until(_, a) | T::SliceTo(_, a) | T::IndexAt(a) => go(a, s),
+            | T::Until(_, a) | T::SliceTo(_, a) | T::IndexAt(a) | T::PathOf(a) => go(a, s),
             T::Foreach(a, _, _, u, e) => {
                 go(a, s);
                 go(u, s);
